@@ -89,6 +89,7 @@ func TestStoreRandom(t *testing.T) {
 		r := vh.Rand(int64(1000*h) + int64(len(prof)))
 		var evs []Event
 		var notes []string
+		var met map[string]any
 		synctest.Test(t, func(t *testing.T) {
 			e := NewEnv(p.Names)
 			// construction must give up promptly when the caller's context ends whatever error the client reports for
@@ -97,6 +98,7 @@ func TestStoreRandom(t *testing.T) {
 			e.OpaqueCtxErr = prof == "init" && h%3 == 2
 			curEnv.Store(e)
 			RandomHistory(e, r, p)
+			met = e.Metrics()
 			evs = e.Events()
 			notes = append(notes, e.Notes...)
 			e.Cleanup()
@@ -109,7 +111,7 @@ func TestStoreRandom(t *testing.T) {
 		if len(evs) > 0 {
 			last = evs[len(evs)-1]["t"].(int64)
 		}
-		w.Put(Event{"ev": "end", "t": last})
+		w.Put(Event{"ev": "end", "t": last, "metrics": met})
 		events += len(evs)
 		for _, nt := range notes {
 			res.Violate("store-note "+firstWords(nt), fmt.Sprintf("history %d (%s): %s", h, prof, nt), map[string]any{"history": evs})
@@ -330,6 +332,7 @@ func TestStoreScript(t *testing.T) {
 		n++
 		var evs []Event
 		var notes []string
+		var met map[string]any
 		synctest.Test(t, func(t *testing.T) {
 			e := NewEnv(allNames)
 			curEnv.Store(e)
@@ -351,6 +354,7 @@ func TestStoreScript(t *testing.T) {
 			}
 			e.UnparkAll()
 			synctest.Wait()
+			met = e.Metrics()
 			evs = e.Events()
 			notes = append(notes, e.Notes...)
 			e.Cleanup()
@@ -363,7 +367,7 @@ func TestStoreScript(t *testing.T) {
 		if len(evs) > 0 {
 			last = evs[len(evs)-1]["t"].(int64)
 		}
-		w.Put(Event{"ev": "end", "t": last})
+		w.Put(Event{"ev": "end", "t": last, "metrics": met})
 		for _, nt := range notes {
 			res.Violate("store-note "+firstWords(nt), fmt.Sprintf("script %d: %s", n, nt), map[string]any{"script": steps, "history": evs})
 		}
